@@ -298,6 +298,75 @@ func (c *FCFG) posOf(n ast.Node) (cfgPos, bool) {
 	}
 	// compound statements are not CFG nodes themselves: use their header
 	switch s := n.(type) {
+	case *ast.BranchStmt:
+		// break/continue/goto are edges, not nodes: locate the statement list
+		// that contains it; use the previous sibling, or the branch block that
+		// the list is the body of.
+		var list []ast.Stmt
+		var owner ast.Node
+		isElse := false
+		ast.Inspect(c.Body, func(x ast.Node) bool {
+			if list != nil || x == nil {
+				return false
+			}
+			check := func(l []ast.Stmt, o ast.Node, els bool) {
+				for _, st := range l {
+					if st == ast.Stmt(s) {
+						list, owner, isElse = l, o, els
+					}
+				}
+			}
+			switch y := x.(type) {
+			case *ast.IfStmt:
+				check(y.Body.List, y, false)
+				if eb, ok := y.Else.(*ast.BlockStmt); ok {
+					check(eb.List, y, true)
+				}
+			case *ast.CaseClause:
+				check(y.Body, y, false)
+			case *ast.ForStmt:
+				check(y.Body.List, y, false)
+			case *ast.RangeStmt:
+				check(y.Body.List, y, false)
+			case *ast.BlockStmt:
+				if list == nil {
+					check(y.List, y, false)
+				}
+			}
+			return true
+		})
+		if list == nil {
+			return cfgPos{}, false
+		}
+		for i, st := range list {
+			if st == ast.Stmt(s) && i > 0 {
+				prev := list[i-1]
+				// after a compound statement control continues in its "done" block
+				for _, b := range c.G.Blocks {
+					if b.Stmt != ast.Stmt(nil) && b.Stmt == prev {
+						switch b.Kind {
+						case cfg.KindIfDone, cfg.KindSwitchDone, cfg.KindForDone, cfg.KindRangeDone, cfg.KindSelectDone:
+							return cfgPos{b, 0}, true
+						}
+					}
+				}
+				if p, ok := c.where[prev]; ok {
+					return cfgPos{p.B, p.I + 1}, true
+				}
+				return c.posOf(prev)
+			}
+		}
+		// first statement of a branch body: find the CFG block for it
+		for _, b := range c.G.Blocks {
+			if b.Stmt != ast.Stmt(nil) && ast.Node(b.Stmt) == owner {
+				switch {
+				case b.Kind == cfg.KindIfThen && !isElse, b.Kind == cfg.KindIfElse && isElse,
+					b.Kind == cfg.KindSwitchCaseBody, b.Kind == cfg.KindForBody, b.Kind == cfg.KindRangeBody:
+					return cfgPos{b, 0}, true
+				}
+			}
+		}
+		return cfgPos{}, false
 	case *ast.RangeStmt:
 		return c.posOf(s.X)
 	case *ast.ForStmt:
@@ -342,6 +411,7 @@ type Search struct {
 	Target       func(n ast.Node) bool              // reaching such a node ends the search with found=true
 	Barrier      func(n ast.Node) bool              // a path stops at such a node
 	EdgeBarrier  func(b *cfgBlock, succ int) bool  // a path cannot take such an edge
+	TargetPos    *cfgPos                            // reaching this CFG position ends the search with found=true
 	ExitIsTarget bool                               // reaching a function exit counts as found
 	ExitFilter   func(last ast.Node, b *cfg.Block) bool // if set, only exits for which it returns true count
 }
@@ -372,6 +442,9 @@ func (c *FCFG) Forward(from cfgPos, s Search) (bool, ast.Node) {
 		var last ast.Node
 		for i := p.I; i < len(p.B.Nodes); i++ {
 			n := p.B.Nodes[i]
+			if s.TargetPos != nil && s.TargetPos.B == p.B && s.TargetPos.I == i {
+				return true, n
+			}
 			last = n
 			if s.Target != nil && s.Target(n) {
 				return true, n
@@ -383,6 +456,9 @@ func (c *FCFG) Forward(from cfgPos, s Search) (bool, ast.Node) {
 		}
 		if stopped {
 			continue
+		}
+		if s.TargetPos != nil && s.TargetPos.B == p.B && s.TargetPos.I >= len(p.B.Nodes) && s.TargetPos.I >= p.I {
+			return true, last
 		}
 		if len(p.B.Succs) == 0 {
 			if s.ExitIsTarget && p.B.Live && !endsInNoReturn(c, p.B) {
@@ -493,18 +569,54 @@ func (c *FCFG) DominatedByCond(site ast.Node, pass func(core ast.Expr, coreTrue 
 		return false
 	}
 	found, _ := c.Forward(c.Entry(), Search{
-		Target: func(n ast.Node) bool {
-			p, ok := c.where[n]
-			return ok && p == sp
-		},
-		EdgeBarrier: func(b *cfg.Block, succ int) bool {
-			for _, a := range edgeAtoms(b, succ) {
-				if pass(a.E, a.Val) {
-					return true
-				}
+		TargetPos: &sp,
+		EdgeBarrier: func(b *cfg.Block, succ int) bool { return edgePasses(b, succ, pass) },
+	})
+	return !found
+}
+
+// condPasses: taking the edge on which cond evaluates to val establishes a
+// fact accepted by pass. Conjunction-true / disjunction-false establish all
+// operands (any one passing suffices); disjunction-true / conjunction-false
+// establish one unknown operand (every operand must pass).
+func condPasses(cond ast.Expr, val bool, pass func(core ast.Expr, val bool) bool) bool {
+	cond = unparen(cond)
+	switch x := cond.(type) {
+	case *ast.UnaryExpr:
+		if x.Op == token.NOT {
+			return condPasses(x.X, !val, pass)
+		}
+	case *ast.BinaryExpr:
+		if x.Op == token.LAND || x.Op == token.LOR {
+			all := (x.Op == token.LAND) == val // operands all take value val
+			if all {
+				return condPasses(x.X, val, pass) || condPasses(x.Y, val, pass)
 			}
-			return false
-		},
+			return condPasses(x.X, val, pass) && condPasses(x.Y, val, pass)
+		}
+	}
+	return pass(cond, val)
+}
+
+func edgePasses(b *cfg.Block, succ int, pass func(core ast.Expr, val bool) bool) bool {
+	cond := blockCond(b)
+	if cond == nil {
+		return false
+	}
+	return condPasses(cond, succ == 0, pass)
+}
+
+// DominatedByCondOrNode: every path from entry to site takes an edge accepted
+// by pass or passes a node accepted by guard.
+func (c *FCFG) DominatedByCondOrNode(site ast.Node, pass func(core ast.Expr, val bool) bool, guard func(n ast.Node) bool) bool {
+	sp, ok := c.posOf(site)
+	if !ok {
+		return false
+	}
+	found, _ := c.Forward(c.Entry(), Search{
+		TargetPos: &sp,
+		Barrier:     guard,
+		EdgeBarrier: func(b *cfg.Block, succ int) bool { return edgePasses(b, succ, pass) },
 	})
 	return !found
 }
@@ -517,10 +629,7 @@ func (c *FCFG) DominatedByNode(site ast.Node, guard func(n ast.Node) bool) bool 
 		return false
 	}
 	found, _ := c.Forward(c.Entry(), Search{
-		Target: func(n ast.Node) bool {
-			p, ok := c.where[n]
-			return ok && p == sp
-		},
+		TargetPos: &sp,
 		Barrier: guard,
 	})
 	return !found
